@@ -678,6 +678,7 @@ def notify_contract(h):
         r = h.method(sock, "_notify_message_received", hdr, msg)
     h.oblige("a raising subscriber never makes the notification raise", r.ok)
     ev = [e for e in h.it.path.events if e[0] == "for-all-members"]
+    h.oblige("the notification walks its subscriber set exactly once (every subscriber is told, nobody twice)", len(ev) == 1)
     if ev:
         if which == "connection":
             h.oblige("every connection subscriber is called with connected=<flag>",
